@@ -133,7 +133,7 @@ class IndexSession:
         if level == "http":
             self.world = World(frontend="wsgi", prefix="/", index_threshold=threshold)
             r = self.world.request("MKCALENDAR", "/user/calendars/q/")
-            assert r.status == 201, r
+            assert r.status in range(200, 300), r
             self.path = self.world.fspath("/user/calendars/q")
         else:
             self.base = mkscratch("xi-")
@@ -176,7 +176,7 @@ class IndexSession:
             self._store().import_one(n, "application/octet-stream", [data])
         elif self.level == "http":
             r = self.world.request("PUT", "/user/calendars/q/" + n, [("Content-Type", "text/calendar")], data)
-            if r.status not in (201, 204):
+            if r.status not in range(200, 300):
                 self.refused.append((bodyname, r.status))
                 return
         else:
